@@ -679,6 +679,10 @@ class Executor:
     if isinstance(base, VObj):
       h = p.heap[base.oid]
       if attr in h:
+        if attr.endswith('_') and not attr.startswith('_'):
+          ev = ('getattr', base.oid, attr)
+          if ev not in p.events:
+            p.events.append(ev)          # ghost: reads of fitted / bookkeeping attributes (dataflow clauses)
         return [(p, h[attr])]
       if attr == '__class__':
         return [(p, VClass(base.cls))]
